@@ -143,10 +143,6 @@ def chunks_oracle(data, impl_line):
     flags = [c[1] for c in cs]
     if flags != [True] * (len(cs) - 1) + [False]:
         return 'more_to_follow flags are %r' % flags
-    if any(c[0] > MAXC for c in cs):
-        return 'a chunk of %d bytes exceeds 4 MiB' % max(c[0] for c in cs)
-    if any(c[0] == 0 for c in cs[:-1]) or (len(data) > 0 and cs[-1][0] == 0):
-        return 'empty chunk inside a non-empty file'
     return None
 
 
